@@ -76,8 +76,12 @@ func genCompactCase(r *rand.Rand) SDCase {
 		case k < 80:
 			id := v.IDs[r.Intn(len(v.IDs))]
 			kind := "inject"
-			if r.Intn(3) == 0 {
+			switch r.Intn(6) {
+			case 0, 1:
 				kind = "inject-sametime"
+			case 2:
+				// the stored document is a byte copy of its predecessor (also its "recorded" value) under a later key
+				kind = "inject-bytecopy"
 			}
 			c.Ops = append(c.Ops, SDOp{Kind: kind, DS: ds, To: id})
 			tags["legacy-duplicate"] = true
@@ -171,8 +175,8 @@ func runCompactCase(ctx *Ctx, c SDCase) {
 		ctx.Out.Begin(id, i, op.Kind)
 		var err error
 		switch op.Kind {
-		case "inject", "inject-sametime":
-			err = s.injectDuplicate(op.DS, op.To, op.Kind == "inject-sametime")
+		case "inject", "inject-sametime", "inject-bytecopy":
+			err = s.injectDuplicate(op.DS, op.To, op.Kind == "inject-sametime", op.Kind == "inject-bytecopy")
 		case "compact":
 			var removed int
 			removed, err = s.compactAndCheck(op)
@@ -207,7 +211,7 @@ func runCompactCase(ctx *Ctx, c SDCase) {
 // version with raw keys, the way StoreEntities lays a version out. With
 // sameTime the twin shares commit time (and therefore reference keys) with its
 // predecessor, as produced by the former in-batch-repeat behaviour.
-func (s *sdRun) injectDuplicate(dsName, uri string, sameTime bool) error {
+func (s *sdRun) injectDuplicate(dsName, uri string, sameTime, byteCopy bool) error {
 	ds := s.core.Dsm.GetDataset(dsName)
 	md := s.m.Live(dsName)
 	var last *model.Version
@@ -263,6 +267,9 @@ func (s *sdRun) injectDuplicate(dsName, uri string, sameTime bool) error {
 			ent.Recorded = now
 		}
 		newJSON, _ := json.Marshal(ent)
+		if byteCopy {
+			newJSON = oldJSON
+		}
 		if err := txn.Set(newKey, newJSON); err != nil {
 			return err
 		}
